@@ -630,6 +630,9 @@ func runC34(c *Ctx) error {
 	c.Setup("Watermark CorrC34", "run_case")
 	// commit-window schedules right after every (re)initialisation of the oracle's timestamps
 	// (Load, re-open, DropAll, StreamWriter): oracle only (harness/window_reset.go)
+	if wedged, err := runC34RejectedCommits(c); err != nil || wedged {
+		return err
+	}
 	if err := runWindowAfterReset(c); err != nil {
 		return err
 	}
